@@ -475,8 +475,8 @@ func EscEnd(b []byte, i int) int {
 	case '[':
 		for j := i + 2; j < len(b); j++ {
 			c := b[j]
-			if c == '?' || c == ';' || (c >= '0' && c <= '9') {
-				continue
+			if c == '?' || c == ';' || (c >= '0' && c <= '9') || (c >= 0x20 && c <= 0x2f) {
+				continue // parameter and intermediate bytes
 			}
 
 			return j + 1
